@@ -3,12 +3,13 @@
 # Runs every patch of /verif/seeded (against the check of its own property) or /verif/benign (against ALL claimed checks) in
 # parallel, each worker on its OWN scratch copy of /repo (under /tmp, removed afterwards) - /repo itself is never touched.
 # The workers use exactly the registered ./check command with VERIF_REPO / VERIF_OUT / VERIF_REPLAY_CRATE pointing at the copy.
-kind=$1; W=${2:-6}
+kind=$1; W=${2:-6}; only=${3:-.}      # optional 3rd argument: a regex selecting the patch directories (the matrix file then holds only those rows)
 cd /verif
 ids=$(python3 -c "import json;print(' '.join(c['property_id'] for c in json.load(open('MANIFEST.json'))['checks']))")
 base=/tmp/iso.$$
 mkdir -p $base
-ls -d $kind/*/ | grep -v MATRIX | while read d; do [ -f $d/patch.diff ] && basename $d; done > $base/todo
+ls -d $kind/*/ | grep -v MATRIX | while read d; do [ -f $d/patch.diff ] && basename $d; done | grep -E "$only" > $base/todo
+out_md=MATRIX.md; [ "$only" != "." ] && out_md=MATRIX.partial.md
 worker() {
   k=$1; w=$base/w$k
   mkdir -p $w/repo $w/out
@@ -39,11 +40,11 @@ touch $base/lock $base/results
 for k in $(seq 1 $W); do worker $k & done
 wait
 sort $base/results > $kind/MATRIX.raw
-python3 - $kind <<'PY'
+python3 - $kind $out_md <<'PY'
 import sys,collections
 kind=sys.argv[1]
 rows=[l.rstrip('\n').split('|',4) for l in open('/verif/%s/MATRIX.raw'%kind)]
-out=open('/verif/%s/MATRIX.md'%kind,'w')
+out=open('/verif/%s/%s'%(kind,sys.argv[2]),'w')
 if kind=='seeded':
     out.write("| seeded change | check | exit | reported obligations |\n|---|---|---|---|\n")
     for r in rows:
@@ -57,4 +58,4 @@ else:
 PY
 rm -f $kind/MATRIX.raw
 rm -rf $base
-echo "wrote $kind/MATRIX.md"
+echo "wrote $kind/$out_md"
